@@ -225,7 +225,9 @@ Example C14_nonvacuous_phase3 :
   /\ model_translate [str "ACN"] = Err 1 /\ model_translate [str "ACGTT"; str "A"] = Err 2
   /\ tr_wellformed [str "ACGTT"; str "A"] = false /\ tr_wellformed [str "ACGtaa"; []] = true
   /\ rev_wf 0 [str "acgtn"; []] = true /\ str_wf 0 0 (str "ACgtn") [(0, 3, 45); (2, 2, 43)] = true
-  /\ tr_wf [str "ACN"] = true.
+  /\ tr_wf [str "ACN"] = true
+  /\ seq_wf [str "ACGtaa"; []; str "ATG"] = true
+  /\ seq_model [str "ACGtaa"] 3 = Ok [str "LR"] /\ seq_spec [str "ACGtaa"] 3 = [str "LR"].
 Proof. vm_compute. repeat split; reflexivity. Qed.
 (* the hypotheses of the theorems are met by concrete inputs and the executable model really computes *)
 Example C14_nonvacuous :
